@@ -19,7 +19,7 @@
 From Coq Require Import String Ascii List Bool Arith ZArith PrimFloat.
 Import ListNotations.
 Require Import Generated PyBase PyStr Lex Format Symbols Split Merge ParseEq ParseModel Solver SolverF Eval EvalFacts EvalF.
-Require Import CodeGen CodeGenF CodeGenFacts CodeGenFacts2 CodeGenFacts3 CodeGenFacts4 CodeGenFacts5 CodeGenFacts6 CodeGenFacts7 CodeGenFacts8 CodeGenFacts9 CodeGenFacts10 LexFacts CodeGenLexFacts CodeGenSrc CodeGenSrcFacts CodeGenSrcFacts2 CodeGenBlock CodeGenBlockFacts CodeGenExamples.
+Require Import CodeGen CodeGenF CodeGenFacts CodeGenFacts2 CodeGenFacts3 CodeGenFacts4 CodeGenFacts5 CodeGenFacts6 CodeGenFacts7 CodeGenFacts8 CodeGenFacts9 CodeGenFacts10 CodeGenFacts11 CodeGenFacts12 LexFacts CodeGenLexFacts CodeGenSrc CodeGenSrcFacts CodeGenSrcFacts2 CodeGenBlock CodeGenBlockFacts CodeGenExamples.
 Open Scope string_scope.
 
 (* ======================= Part A: the generated text ======================= *)
@@ -88,6 +88,25 @@ Theorem C01_model_code_instance :
                                      Some "self._Z[t] = max(self._W[t], self._Y[t]) - self._e[t]"].
 Proof. exact scriptC_codes. Qed.
 Print Assumptions C01_model_code_instance.
+
+(* whole model: whatever script parse_model accepts, every VARIABLE / {PARAMETER} / <ERROR> term of every one of its
+   statements has its name in NAMES = ENDOGENOUS + EXOGENOUS + PARAMETERS + ERRORS of the merged symbol list: every
+   `self._NAME[…]` the generated code reads or writes is a declared series (a name that is also used as a function, in the same
+   statement or in another one, makes Symbol.combine raise SymbolError — the repair of finding #19) *)
+Theorem C01_every_series_term_is_declared chk cs script syms st terms t :
+  parse_model_M chk cs script = POk syms ->
+  In st (fst (split_M script)) -> is_blank st = false -> head_is "`" st && last_is "`" st = false ->
+  parse_equation_terms st = Ret terms -> In t terms -> declarable (ttype t) = true ->
+  In (tname t) (names_of syms).
+Proof. exact (every_series_term_declared chk cs script syms st terms t). Qed.
+Print Assumptions C01_every_series_term_is_declared.
+Theorem C01_function_and_series_name_rejected :
+  parse_model_nocheck "Y = exp + exp(X)" = PErr SymbolError /\
+  parse_model_nocheck "Y = log(log[-1])" = PErr SymbolError /\
+  parse_model_nocheck ("Y = exp(X)" ++ lf ++ "Z = exp") = PErr SymbolError /\
+  (exists syms, parse_model_nocheck "Y = exp(X) + exp(Z)" = POk syms /\ names_of syms = ["Y"; "X"; "Z"]).
+Proof. exact function_and_series_name_rejected. Qed.
+Print Assumptions C01_function_and_series_name_rejected.
 
 (* the whitespace normalisation neither drops, adds nor reorders a match *)
 Theorem C01_normalisation_keeps_matches l : matches_of (norm_items l) = matches_of l.
@@ -393,6 +412,28 @@ Theorem C01_test_fuel_suffices row f ts st rest :
 Proof. exact (test_fuel_suffices row f ts st rest). Qed.
 Print Assumptions C01_test_fuel_suffices.
 
+(* the shapes of comparisons / conditionals the model does not read are FAIL-CLOSED, not misread:
+   the arithmetic parser never consumes a comparison operator or if / else / and / or / not — not at the top, not inside
+   parentheses, not in the arguments of a call (so a conditional or a comparison nested there is never part of an accepted
+   statement) … *)
+Theorem C01_arithmetic_consumes_no_comparison_or_keyword row fuel ts e rest :
+  p_expr row fuel ts = Some (e, rest) -> exists used, ts = (used ++ rest)%list /\ nox used = true.
+Proof. exact (arith_consumes_no_x row fuel ts e rest). Qed.
+Print Assumptions C01_arithmetic_consumes_no_comparison_or_keyword.
+(* … an accepted right-hand side is plain arithmetic without any such token, or `a if …` with a free of them … *)
+Theorem C01_accepted_rhs_shape row y k rhs i k0 st :
+  src_of_tokens row (CRead y k :: CAssign :: rhs) = Some (y, i, k0, st) ->
+  (exists e, st = SVal e /\ nox rhs = true) \/
+  (exists a c b used r, st = SIf a c b /\ rhs = (used ++ CX XIf :: r)%list /\ nox used = true).
+Proof. exact (rhs_shape row y k rhs i k0 st). Qed.
+Print Assumptions C01_accepted_rhs_shape.
+(* … so a comparison used as a value (`Y = X > 1`), `Y = not X`, `Y = X and Z` … denote nothing *)
+Theorem C01_comparison_as_value_rejected row y k used x r :
+  nox used = true -> x <> XIf ->
+  src_of_tokens row (CRead y k :: CAssign :: (used ++ CX x :: r)%list) = None.
+Proof. exact (comparison_as_value_rejected row y k used x r). Qed.
+Print Assumptions C01_comparison_as_value_rejected.
+
 (* every statement `NAME[k0] = rhs` of the subset: the cell assigned is (row NAME, k0) — a left-hand lead or lag k0 is kept —
    and the series terms of the right-hand side AS WRITTEN (st: value, condition, alternative) are exactly the VARIABLE /
    {PARAMETER} / <ERROR> matches of the statement text, in textual order, each at the index written (0 when none is written):
@@ -437,15 +478,17 @@ Theorem C01_conditional_instance :
 Proof. exact conditional_instance. Qed.
 Print Assumptions C01_conditional_instance.
 
-(* the statements of the program are those of the symbols build_model_definition emits, in SYMBOL-LIST order; each
-   comes from a statement of the script whose left-hand name is the symbol's name, and writes that name's row *)
+(* the statements of the program are those of the symbols build_model_definition emits, in SYMBOL-LIST order: an ENDOGENOUS
+   symbol's comes from a statement of the script whose left-hand name is the symbol's name and writes that name's row; a
+   VERBATIM symbol's (a one-line verbatim assignment of the subset) is read off its own code *)
 Theorem C01_statements_in_symbol_order syms stmts names prog :
   program_of_symbols syms stmts = Some (names, prog) ->
   names = names_of syms /\
-  Forall2 (fun s st => exists n eq i k0 e,
-             sname s = Some n /\ In eq stmts /\
-             stmt_of_equation (row_of names) eq = Some (n, st) /\
-             st = SAssign i k0 e /\ row_of names n = Some i)
+  Forall2 (fun s st => exists i k0 e, st = SAssign i k0 e /\
+             ((exists n eq, sname s = Some n /\ In eq stmts /\
+                            stmt_of_equation (row_of names) eq = Some (n, st) /\ row_of names n = Some i) \/
+              (sname s = None /\ exists c y, scode s = Some c /\
+                            stmt_of_code (row_of names) c = Some (y, st) /\ row_of names y = Some i)))
           (filter emits syms) prog.
 Proof. exact (program_order syms stmts names prog). Qed.
 Print Assumptions C01_statements_in_symbol_order.
@@ -613,6 +656,17 @@ Theorem C01_lhs_offset_instance :
   end.
 Proof. exact lhs_offset_pass. Qed.
 Print Assumptions C01_lhs_offset_instance.
+(* a one-line verbatim assignment of the subset is a statement of the program, run where the symbol list puts it *)
+Theorem C01_verbatim_statement_program_instance :
+  program_of_script ("`self._W[t] = self._Y[t-1] * 2.0 + max(self._Z[t+1], 1)`" ++ lf ++ "Y = X + 1" ++ lf ++ "Z = Y * W")
+  = Some (["Y"; "Z"; "X"; "W"],
+          [SAssign 0 0%Z (EBin OAdd (ERead 2 0%Z) (ENum "1"));
+           SAssign 1 0%Z (EBin OMul (ERead 0 0%Z) (ERead 3 0%Z));
+           SAssign 3 0%Z (EBin OAdd (EBin OMul (ERead 0 (-1)%Z) (ENum "2.0")) (EMax (ERead 1 1%Z) (ENum "1")))]) /\
+  program_of_script ("`self.k = 3`" ++ lf ++ "Y = X + 1") = None /\
+  program_of_script ("```" ++ lf ++ "self._Y[t] = 1" ++ lf ++ "```" ++ lf ++ "Z = X") = None.
+Proof. exact verbatim_statement_program. Qed.
+Print Assumptions C01_verbatim_statement_program_instance.
 Theorem C01_pass_instance :
   match fprogram_of_script scriptC with
   | Some (_, p) =>
@@ -644,14 +698,7 @@ Theorem C01_brace_outside_parameter_refuted :
 Proof. exact brace_outside_parameter_refuted. Qed.
 Print Assumptions C01_brace_outside_parameter_refuted.
 
-(* #19: `Y = exp + exp(X)` — the variable `exp` is not declared although the code reads self._exp *)
-Theorem C01_function_shadows_variable_refuted :
-  exists script syms, parse_model_nocheck script = POk syms /\
-    In (mkSymbol (Some "Y") TEndogenous (Some (IInt 0%Z)) (Some (IInt 0%Z)) (Some "Y[t] = exp[t] + exp(X[t])")
-                 (Some "self._Y[t] = self._exp[t] + np.exp(self._X[t])")) syms /\
-    names_of syms = ["Y"; "X"] /\ program_of_script script = None.
-Proof. exact function_shadows_variable_refuted. Qed.
-Print Assumptions C01_function_shadows_variable_refuted.
+(* (finding #19 — `Y = exp + exp(X)` lost the series exp — is repaired by b45daa1; see C01_every_series_term_is_declared) *)
 
 (* NEW: `Y = _x + 1` — a series name beginning with an underscore: self.__x is name-mangled inside the class body *)
 Theorem C01_underscore_name_mangled_refuted :
